@@ -1,8 +1,10 @@
 """C16 (bounded form): computations on different threads never interfere - sequentialised two-thread
 schedules with hand-overs at harness-visible points decided by symbolic schedule bits."""
+import asyncio
 import threading
 
 import asynq
+from asynq.asynq_to_async import is_asyncio_mode
 from asynq import asynq as A
 from asynq import scheduler as S
 from asynq import batching as BT
@@ -24,11 +26,13 @@ ENC = ["asynq/scheduler.py: LocalTaskSchedulerState (thread-local), get_schedule
 class Turn(object):
     """Exactly one of the two threads runs at any time."""
 
-    def __init__(self):
+    def __init__(self, stride=1):
         self.cv = threading.Condition()
         self.turn = "A"
         self.b_done = False
         self.handovers = 0
+        self.stride = stride        # thread B gives the turn back at every stride-th of its points
+        self.b_points = 0
 
     def _wait(self, who):
         if not self.cv.wait_for(lambda: self.turn == who, timeout=60):
@@ -44,6 +48,9 @@ class Turn(object):
             self._wait("A")
 
     def b_point(self):
+        self.b_points += 1
+        if self.b_points % self.stride:
+            return
         with self.cv:
             self.turn = "A"
             self.cv.notify_all()
@@ -82,8 +89,11 @@ def shared_dd(k):
     st = _tl.state
     st["count"][k] = st["count"].get(k, 0) + 1
     st["hp"]()
-    x = yield BT.DebugBatchItem("dd", (st["tag"], "dd", k))
-    return (st["tag"], k, x)
+    x = yield BT.DebugBatchItem("s", (st["tag"], "dd", k))
+    st["hp"]()
+    # (a second round: the execution is in flight over two flushes, so a later caller of the same thread can join it)
+    x2 = yield BT.DebugBatchItem("s", (st["tag"], "dd'", k))
+    return (st["tag"], k, x, x2)
 
 
 def _dd2_key(args, kwargs):
@@ -95,7 +105,7 @@ def _dd2_key(args, kwargs):
 def shared_dd2(k, who):
     """deduplicated on k only (custom keygetter): `who` travels with the task, so a task handed over from another
     thread's table is visible in the result"""
-    x = yield BT.DebugBatchItem("dd", (who, "dd2", k))
+    x = yield BT.DebugBatchItem("s", (who, "dd2", k))
     return (who, k, x)
 
 
@@ -174,18 +184,26 @@ def run_program(tag, vals, ks, hp, shape, perf):
             a = yield BT.DebugBatchItem("s", (tag, i, vals[i]))
             if asynq.get_active_task() is not own:
                 tr["active_ok"] = False
+            if is_asyncio_mode():
+                tr["foreign"].append(("asyncio mode is on in a thread that runs plain asynq", i))
+            if i == 1:
+                # the second worker asks one flush later: the execution started for the first worker is in flight
+                yield BT.DebugBatchItem("s", (tag, i, "late"))
             hp()
+            if i == 0:
+                dd.dirty(ks[0])          # forgets this thread's entry only
             b = yield dd.asynq(ks[i])
             b2 = yield shared_dd2.asynq(ks[i], tag)
             if b2[0] != tag:
                 tr["foreign"].append(("deduplicated task created by another thread", b2))
             hp()
         if shape == 1:
-            # (different item counts per batch: no priority tie, so the flush order is determined)
+            # (a second batch name; different item counts per batch at every point, also when the two workers are one
+            #  round apart: no priority tie, so the flush order is determined)
             c = yield [BT.DebugBatchItem("t", (tag, i, 1)), BT.DebugBatchItem("s", (tag, i, 2)),
-                       BT.DebugBatchItem("s", (tag, i, 4))]
+                       BT.DebugBatchItem("s", (tag, i, 4)), BT.DebugBatchItem("s", (tag, i, 5))]
         else:
-            c = yield BT.DebugBatchItem("t", (tag, i, 3))
+            c = yield BT.DebugBatchItem("s", (tag, i, 3))
         if asynq.get_active_task() is not own:
             tr["active_ok"] = False
         return (a, b, c)
@@ -197,11 +215,33 @@ def run_program(tag, vals, ks, hp, shape, perf):
         r = yield [worker.asynq(i) for i in range(len(vals))] + [pkick.asynq(), pwait.asynq(0)]
         return r
 
-    try:
-        if perf:
-            PF.reset()
+    @A()
+    def aleaf(i):
+        mode = is_asyncio_mode()
+        hp()
+        v = yield asynq.ConstFuture((tag, i, vals[i]))
+        return (v, mode)
+
+    @A()
+    def aroot():
+        hp()
+        r = yield [aleaf.asynq(i) for i in range(len(vals))]
+        hp()
+        r2 = yield aleaf.asynq(0)
+        hp()
+        return (r, r2, is_asyncio_mode())
+
+    def run_asyncio():
+        loop = asyncio.new_event_loop()
         try:
-            tr["result"] = ("v", root())
+            return loop.run_until_complete(aroot.asyncio())
+        finally:
+            loop.close()
+
+    try:
+        # (no profiler reset here: a thread that never touched the profiler starts with an empty buffer)
+        try:
+            tr["result"] = ("v", run_asyncio() if shape == 2 else root())
         except Exception as e:
             prog.reraise_control(e)
             tr["result"] = ("e", type(e).__name__, str(e)[:200])
@@ -245,11 +285,12 @@ def reset_thread_state():
 
 
 def mk(nbits):
-    def f(shapeA, shapeB, perf, ka0, ka1, va0, va1, skip, *bits):
-        sA, sB, pf = conc(shapeA, 2), conc(shapeB, 2), concb(perf)
+    def f(shapeA, shapeB, perf, ka0, ka1, va0, va1, skip, stride, *bits):
+        sA, sB, pf = conc(shapeA, 3), conc(shapeB, 3), concb(perf)
         skipv = conc(skip, MAXSKIP + 1)
         ksA = [conc(ka0, 2), conc(ka1, 2)]
-        ksB = [0, 1]
+        ksB = [0, 0 if sB == 0 else 1]       # shape 0: both workers of B ask for the same key
+        stridev = STRIDES[conc(stride, len(STRIDES))]
         valsA = [va0, va1]
         valsB = [7, 8]
         sched_bits = [concb(b) for b in bits]
@@ -265,10 +306,15 @@ def mk(nbits):
             box = {}
 
             def b_alone():
-                box["t"] = run_program("B", valsB, ksB, lambda: None, sB, pf)
+                try:
+                    box["t"] = run_program("B", valsB, ksB, lambda: None, sB, pf)
+                except BaseException as e:   # noqa
+                    box["t_exc"] = e
             th = threading.Thread(target=b_alone)
             th.start()
             th.join(60)
+            if "t_exc" in box:
+                return rec.fail("program B, alone on a fresh thread, failed: %r" % (box["t_exc"],))
             aloneB = box["t"]
             asynq.tools.DeduplicateDecorator.tasks.clear()
             # --- a short-lived earlier thread creates deduplicated tasks and abandons them (never run)
@@ -278,7 +324,7 @@ def mk(nbits):
             _tl_z.start()
             _tl_z.join(60)
             # --- both, interleaved at the hand-over points chosen by the schedule bits
-            turn = Turn()
+            turn = Turn(stridev)
             pos = [0]
 
             def hpA():
@@ -325,7 +371,7 @@ def mk(nbits):
                 rec.wit("paths_with_handover")
             if turn.handovers > 1:
                 rec.wit("paths_with_2+_handovers")
-            rec.done(("c16", sA, sB, pf, tuple(ksA), skipv, tuple(sched_bits)), turn.handovers > 0)
+            rec.done(("c16", sA, sB, pf, tuple(ksA), skipv, stridev, tuple(sched_bits)), turn.handovers > 0)
             return True
         finally:
             DBG.options.COLLECT_PERF_STATS = old_perf
@@ -335,16 +381,21 @@ def mk(nbits):
 
 
 MAXSKIP = 24
+STRIDES = [1, 3, 6]
+# shape 0/1: batches + contexts + deduplicate (+ profiler); shape 2: the program runs through .asyncio() on its own loop
+SHAPES = [(0, 0), (0, 1), (1, 0), (1, 1), (0, 2), (2, 0), (2, 2)]
 
 
 def params(nbits):
-    return ([I("shapeA", 0, 1), I("shapeB", 0, 1), B("perf"), I("ka0", 0, 1), I("ka1", 0, 1), I("va0"), I("va1"),
-             I("skip", 0, MAXSKIP)] + [B("h%d" % i) for i in range(nbits)])
+    return ([I("shapeA", 0, 2), I("shapeB", 0, 2), B("perf"), I("ka0", 0, 1), I("ka1", 0, 1), I("va0"), I("va1"),
+             I("skip", 0, MAXSKIP), I("stride", 0, len(STRIDES) - 1)] + [B("h%d" % i) for i in range(nbits)])
 
 
 def conds(tier):
     q = tier == "quick"
-    nb = 5 if q else 6
+    nb = 4 if q else 6
     return [Cond("handover", mk(nb), params(nb), pin=3, builds=("C", "P"), budget=300 if q else 1500, per_path=120,
-                 family="two threads, hand-over window of %d symbolic bits at a symbolic offset (0..24); programs use DebugBatchItem, deduplicate, contexts, "
-                        "COLLECT_PERF_STATS" % nb, encodes=ENC)]
+                 extra_pre=["(shapeA, shapeB) in %r" % (SHAPES,)], shard_filter=lambda shapeA, shapeB, perf: (shapeA, shapeB) in SHAPES,
+                 family="two threads, hand-over window of %d symbolic bits at a symbolic offset (0..24), the second thread runs "
+                        "1/3/6 of its points per hand-over; programs use DebugBatchItem, deduplicate, contexts, "
+                        "COLLECT_PERF_STATS, dirty(), a computation running in asyncio mode" % nb, encodes=ENC)]
